@@ -163,6 +163,10 @@ def run(prog: Program, col: Collector, tier: str, refs: Optional[Refs] = None, c
     col.rule("R04.21", "a term is declared affine in an input only after its op has been tested (affine substitution into Gaussians relies on it)", floor=4)
     _affine_rules_test_op(prog, col, refs, cat)
 
+    # ---------------------------------------------------------------- R04.26
+    col.rule("R04.26", "whether an input of the term is substituted is decided on the keys of the substitution, never on a collection that holds names of the values", floor=4)
+    _substituted_decided_on_keys(prog, col, refs, cat)
+
     # ---------------------------------------------------------------- R04.25
     col.rule("R04.25", "the set algebra of the affine_inputs rules claims an input affine only where the op's law allows it", floor=6)
     _affine_calculus(prog, col, refs, cat)
@@ -1491,3 +1495,155 @@ def _affine_calculus(prog: Program, col: Collector, refs: Refs, cat: Catalogue):
                            f"{'; '.join(show(k) for k in witness[0])[:200]}): {law}.  is_affine() then holds for a term that is not affine and Gaussian substitution "
                            "treats it as a linear change of variables") if witness else "", f.loc(st))
     col.cur.analysed["affine_rule_branches"] = n_branches
+
+
+# ---------------------------------------------------------------------- R04.26 "was this input substituted?" is asked of the keys
+
+
+def _substituted_decided_on_keys(prog: Program, col: Collector, refs: Refs, cat: Catalogue):
+    """Inside a substitution kernel the inputs of the term fall into substituted and kept ones.  That question has to be put to the
+    KEYS of the substitution (the pairs, or a mapping built over the same keys).  A collection that also holds names that came in
+    with the substituted VALUES (the inputs of the result, the variables of the affine coefficients) answers differently exactly when
+    a value mentions a variable that is also a key - g(x=2*y, y=u+1) - and the simultaneous substitution turns into a partial one.
+    Taint classes, flow-insensitive for collections and per binder for loop variables: `keys` (the pairs parameter, mappings /
+    comprehensions over its keys), `own` (self.inputs and what is computed from it alone), `values` (anything that receives a name by
+    iterating the inputs / coefficients of a value)."""
+    n = 0
+    for f in prog.funcs.values():
+        if isinstance(f.node, ast.Lambda) or f.cls is None or not (f.name == "eager_subs" or f.name.startswith("_eager_subs")) or len(f.positional) < 2:
+            continue
+        selfn, subsP = f.positional[0], f.positional[1]
+        keys_coll = {subsP}
+        own_coll = set()
+        val_derived = set()      # plain locals holding (parts of) substituted values
+        has_values = set()       # collections that received a value-introduced name
+        loopvar = {}             # (id(binder), name) -> 'key' | 'own' | 'vname' | 'vpart'
+
+        def binder_of(name_node):
+            for a in f.module.ancestors(name_node):
+                if a is f.node:
+                    return None
+                gens = []
+                if isinstance(a, ast.For):
+                    gens = [a.target]
+                elif isinstance(a, (ast.GeneratorExp, ast.ListComp, ast.SetComp, ast.DictComp)):
+                    gens = [g.target for g in a.generators]
+                for tg in gens:
+                    if any(isinstance(y, ast.Name) and y.id == name_node.id for y in ast.walk(tg)):
+                        return a
+            return None
+
+        def cls_of(name_node):
+            b = binder_of(name_node)
+            if b is not None:
+                return loopvar.get((id(b), name_node.id))
+            if name_node.id in val_derived:
+                return "vpart"
+            return None
+
+        def names_in(e):
+            return [x for x in ast.walk(e) if isinstance(x, ast.Name) and isinstance(x.ctx, ast.Load)]
+
+        def mentions_cls(e, classes):
+            return any(cls_of(x) in classes for x in names_in(e))
+
+        def mentions_coll(e, colls):
+            return any(x.id in colls and binder_of(x) is None for x in names_in(e))
+
+        def is_own_expr(e):
+            return any(isinstance(x, ast.Attribute) and x.attr in ("inputs", "input_vars") and isinstance(x.value, ast.Name) and x.value.id == selfn for x in ast.walk(e)) \
+                or mentions_coll(e, own_coll - has_values)
+
+        def bind_iter(binder, target, it):
+            base, meth = it, None
+            if isinstance(it, ast.Call) and isinstance(it.func, ast.Attribute) and it.func.attr in ("items", "keys", "values") and not it.args:
+                base, meth = it.func.value, it.func.attr
+            if isinstance(it, ast.Call) and isinstance(it.func, ast.Name) and it.func.id == "enumerate" and it.args and isinstance(target, ast.Tuple) and len(target.elts) == 2:
+                return bind_iter(binder, target.elts[1], it.args[0])
+            first = target.elts[0] if isinstance(target, ast.Tuple) and target.elts else target
+            rest = target.elts[1:] if isinstance(target, ast.Tuple) else []
+            nf = {x.id for x in ast.walk(first) if isinstance(x, ast.Name)}
+            nr = {x.id for r in rest for x in ast.walk(r) if isinstance(x, ast.Name)}
+            def put(names, c):
+                for nm in names:
+                    loopvar[(id(binder), nm)] = c
+            if mentions_cls(base, {"vpart"}) or (mentions_coll(base, has_values) and not mentions_coll(base, keys_coll)):
+                if meth == "values":
+                    put(nf | nr, "vpart")
+                else:
+                    put(nf, "vname"); put(nr, "vpart")
+            elif mentions_coll(base, keys_coll):
+                if meth == "values":
+                    put(nf | nr, "vpart")
+                else:
+                    put(nf, "key"); put(nr, "vpart")
+            elif is_own_expr(base):
+                put(nf, "own")
+
+        for _ in range(6):
+            before = (len(keys_coll), len(own_coll), len(val_derived), len(has_values), len(loopvar))
+            loopvar.clear()  # re-classified from the current sets (a collection may have turned out to hold value names)
+            for x in ast.walk(f.node):
+                if isinstance(x, ast.For):
+                    bind_iter(x, x.target, x.iter)
+                elif isinstance(x, (ast.GeneratorExp, ast.ListComp, ast.SetComp, ast.DictComp)):
+                    for g in x.generators:
+                        bind_iter(x, g.target, g.iter)
+            for x in ast.walk(f.node):
+                if isinstance(x, ast.For):
+                    bind_iter(x, x.target, x.iter)
+                elif isinstance(x, (ast.GeneratorExp, ast.ListComp, ast.SetComp, ast.DictComp)):
+                    for g in x.generators:
+                        bind_iter(x, g.target, g.iter)
+                elif isinstance(x, ast.Assign) and len(x.targets) == 1:
+                    t, v = x.targets[0], x.value
+                    comp = isinstance(v, (ast.GeneratorExp, ast.ListComp, ast.SetComp, ast.DictComp)) or (
+                        isinstance(v, ast.Call) and v.args and isinstance(v.args[0], (ast.GeneratorExp, ast.ListComp, ast.SetComp, ast.DictComp)))
+                    if isinstance(t, ast.Name) and binder_of(t) is None:
+                        if not comp and mentions_cls(v, {"vpart"}):
+                            val_derived.add(t.id)
+                        # which names does the collection hold?  (the element / key expression of a comprehension)
+                        elts = []
+                        cv = v if isinstance(v, (ast.GeneratorExp, ast.ListComp, ast.SetComp, ast.DictComp)) else (v.args[0] if comp else None)
+                        if cv is not None:
+                            e0 = cv.key if isinstance(cv, ast.DictComp) else cv.elt
+                            elts = [e0.elts[0] if isinstance(e0, ast.Tuple) and e0.elts else e0]
+                        if any(mentions_cls(e, {"vname"}) for e in elts) or (not comp and mentions_coll(v, has_values)):
+                            has_values.add(t.id)
+                        if mentions_coll(v, keys_coll) or any(mentions_cls(e, {"key"}) for e in elts):
+                            keys_coll.add(t.id)
+                        elif is_own_expr(v) and not mentions_coll(v, has_values) and not any(mentions_cls(e, {"vname"}) for e in elts):
+                            own_coll.add(t.id)
+                    elif isinstance(t, ast.Tuple) and mentions_cls(v, {"vpart"}):
+                        val_derived.update(y.id for y in ast.walk(t) if isinstance(y, ast.Name) and binder_of(y) is None)
+                    elif isinstance(t, ast.Tuple) and mentions_coll(v, has_values):
+                        has_values.update(y.id for y in ast.walk(t) if isinstance(y, ast.Name) and binder_of(y) is None)
+                    elif isinstance(t, ast.Tuple) and is_own_expr(v) and not mentions_coll(v, has_values | keys_coll):
+                        own_coll.update(y.id for y in ast.walk(t) if isinstance(y, ast.Name) and binder_of(y) is None)
+                    elif isinstance(t, ast.Subscript) and isinstance(t.value, ast.Name):
+                        if mentions_cls(t.slice, {"vname"}):
+                            has_values.add(t.value.id)
+                        if mentions_cls(t.slice, {"key"}):
+                            keys_coll.add(t.value.id)
+                elif isinstance(x, ast.Call) and isinstance(x.func, ast.Attribute) and x.func.attr in ("update", "add", "append", "extend") and isinstance(x.func.value, ast.Name):
+                    if any(mentions_cls(a, {"vname"}) or mentions_coll(a, has_values)
+                           or any(isinstance(y, ast.Attribute) and y.attr in ("inputs", "input_vars") and (mentions_cls(y.value, {"vpart"}) or mentions_coll(y.value, keys_coll))
+                                  for y in ast.walk(a)) for a in x.args):
+                        has_values.add(x.func.value.id)
+            if before[:4] == (len(keys_coll), len(own_coll), len(val_derived), len(has_values)) and before[4] == len(loopvar):
+                break
+        for c in ast.walk(f.node):
+            if not (isinstance(c, ast.Compare) and len(c.ops) == 1 and isinstance(c.ops[0], (ast.In, ast.NotIn)) and isinstance(c.left, ast.Name) and isinstance(c.comparators[0], ast.Name)):
+                continue
+            K, C = c.left.id, c.comparators[0].id
+            if cls_of(c.left) != "own" or binder_of(c.comparators[0]) is not None:
+                continue
+            n += 1
+            construct = f"{f.fq}::{norm(c)}"
+            if C in has_values:
+                col.violation(construct, f"`{K}` ranges over the term's own inputs, and `{C}` also holds names that came in with the substituted values: when a value mentions a variable "
+                              f"that is also a key (g(x=2*y, y=u+1)) `{norm(c)}` takes the substituted input `{K}` for one that is kept (or the reverse), so the pair is not applied - the "
+                              "question has to be put to the keys of the substitution", f.loc(c))
+            else:
+                col.ok(construct, f"`{C}` holds keys of the substitution / the term's own names only", f.loc(c), nontrivial=C in keys_coll)
+    col.cur.analysed["membership_tests_of_own_inputs"] = n
